@@ -10,6 +10,7 @@ package main
 import (
 	"crypto"
 	"crypto/ecdsa"
+	"crypto/elliptic"
 	"crypto/rand"
 	"crypto/sha256"
 	"crypto/x509"
@@ -171,7 +172,7 @@ type tsaCertSpec struct {
 }
 
 func mintTSA(s tsaCertSpec, parent *tsaCert) *tsaCert {
-	key := must(ecdsa.GenerateKey(ellipticP256(), rand.Reader))
+	key := must(ecdsa.GenerateKey(elliptic.P256(), rand.Reader))
 	tpl := &x509.Certificate{
 		SerialNumber:          big.NewInt(atomic.AddInt64(&tsaSerial, 1)),
 		Subject:               pkix.Name{CommonName: s.CN, Organization: []string{"Verif TSA"}, Country: []string{"US"}, Province: []string{"WA"}},
